@@ -34,6 +34,15 @@ fn std_scenario(seed: u64, params: &GenParams, force_async: Option<bool>) -> Sce
     sc.activity = gen_activity(&mut cr);
     sc.hash_salt = Rng::stream(seed, "hash_salt").next_u64();
     twin_candidates(seed, &mut sc.world, 5);
+    // opaque handles (version sets, unions, strings) spread over the whole u32 range on one seed in eight
+    let mut hr = Rng::stream(seed, "huge-ids");
+    if hr.chance(1, 8) {
+        let mut ps: Vec<ProblemSpec> = sc.solves.iter().map(|s| s.problem.clone()).collect();
+        crate::gen::huge_handle_ids(&mut hr, &mut sc.world, &mut ps);
+        for (s, p) in sc.solves.iter_mut().zip(ps) {
+            s.problem = p;
+        }
+    }
     sc
 }
 
